@@ -74,11 +74,12 @@ Fixpoint into_any (c : cell) : option jany :=
       else if (tag =? FFI_Y_JSON_ARR)%Z then
         match p with
         | PArr l =>
-            match (fix go (l : list cell) : option (list jany) :=
-                     match l with
-                     | [] => Some []
-                     | x :: r => match into_any x, go r with Some a, Some b => Some (a :: b) | _, _ => None end
-                     end) (firstn (N.to_nat len) l) with
+            match (fix go (n : nat) (l : list cell) {struct l} : option (list jany) :=
+                     match n, l with
+                     | O, _ => Some []
+                     | S _, [] => Some []
+                     | S m, x :: r => match into_any x, go m r with Some a, Some b => Some (a :: b) | _, _ => None end
+                     end) (N.to_nat len) l with
             | Some l' => Some (JArray l') | None => None
             end
         | _ => None
@@ -86,11 +87,12 @@ Fixpoint into_any (c : cell) : option jany :=
       else if (tag =? FFI_Y_JSON_MAP)%Z then
         match p with
         | PMap l =>
-            match (fix go (l : list (list N * cell)) (acc : list (list N * jany)) : option (list (list N * jany)) :=
-                     match l with
-                     | [] => Some acc
-                     | (k, x) :: r => match into_any x with Some a => go r (map_insert k a acc) | None => None end
-                     end) (firstn (N.to_nat len) l) [] with
+            match (fix go (n : nat) (l : list (list N * cell)) (acc : list (list N * jany)) {struct l} : option (list (list N * jany)) :=
+                     match n, l with
+                     | O, _ => Some acc
+                     | S _, [] => Some acc
+                     | S m, (k, x) :: r => match into_any x with Some a => go m r (map_insert k a acc) | None => None end
+                     end) (N.to_nat len) l [] with
             | Some m => Some (JMap m) | None => None
             end
         | _ => None
@@ -113,7 +115,7 @@ Fixpoint output_of (a : jany) : cell :=
   | JMap l => Cell FFI_Y_JSON_MAP (N.of_nat (length l)) (PMap (map (fun kv => (fst kv, output_of (snd kv))) l))
   end.
 
-(* reading an output cell back (youtput_read_*): None where the reader returns NULL *)
+(* reading an output cell back (the youtput_read_ functions): None where the reader returns NULL *)
 Fixpoint read_back (c : cell) : option jany :=
   match c with
   | Cell tag len p =>
@@ -127,11 +129,12 @@ Fixpoint read_back (c : cell) : option jany :=
       else if (tag =? FFI_Y_JSON_ARR)%Z then
         match p with
         | PArr l =>
-            match (fix go (l : list cell) : option (list jany) :=
-                     match l with
-                     | [] => Some []
-                     | x :: r => match read_back x, go r with Some a, Some b => Some (a :: b) | _, _ => None end
-                     end) (firstn (N.to_nat len) l) with
+            match (fix go (n : nat) (l : list cell) {struct l} : option (list jany) :=
+                     match n, l with
+                     | O, _ => Some []
+                     | S _, [] => Some []
+                     | S m, x :: r => match read_back x, go m r with Some a, Some b => Some (a :: b) | _, _ => None end
+                     end) (N.to_nat len) l with
             | Some l' => Some (JArray l') | None => None
             end
         | _ => None
@@ -139,11 +142,12 @@ Fixpoint read_back (c : cell) : option jany :=
       else if (tag =? FFI_Y_JSON_MAP)%Z then
         match p with
         | PMap l =>
-            match (fix go (l : list (list N * cell)) : option (list (list N * jany)) :=
-                     match l with
-                     | [] => Some []
-                     | (k, x) :: r => match read_back x, go r with Some a, Some b => Some ((k, a) :: b) | _, _ => None end
-                     end) (firstn (N.to_nat len) l) with
+            match (fix go (n : nat) (l : list (list N * cell)) {struct l} : option (list (list N * jany)) :=
+                     match n, l with
+                     | O, _ => Some []
+                     | S _, [] => Some []
+                     | S m, (k, x) :: r => match read_back x, go m r with Some a, Some b => Some ((k, a) :: b) | _, _ => None end
+                     end) (N.to_nat len) l with
             | Some m => Some (JMap m) | None => None
             end
         | _ => None
